@@ -322,6 +322,19 @@ func TestVerifC08Child(t *testing.T) {
 		vFsmRun(r, "close-during-backoff", []string{"fail"}, func(w *vFsmWorld) string {
 			vTimerReset(0)
 			if !w.waitState(connectivity.TransientFailure, 3*time.Second) {
+				// the pause may have ended before it could be observed (a timer of an earlier scenario's connection can
+				// take the slot which holds this one): then the scenario did not take place; the histories are still replayed
+				vHistMu.Lock()
+				passed := false
+				for _, st := range vAuthH {
+					if st == connectivity.TransientFailure {
+						passed = true
+					}
+				}
+				vHistMu.Unlock()
+				if passed {
+					return ""
+				}
 				return "no-transient-failure"
 			}
 			err := w.cc.Invoke(context.Background(), "Echo", vAppMsg("x", nil, ""), &message.Response{})
